@@ -117,10 +117,10 @@ theorem asmBind_resp (c : Cur) (id : Nat) : Resp (fun h => asmBind h c id) := by
   simp only [asmBind]
   exact ⟨this.1, congrArg (fun e : String => (({ c with cmt := false } : Cur), e)) this.2⟩
 
-theorem asmJmp_resp (c : Cur) (id : Nat) : Resp (fun h => asmJmp h c id) := by
+theorem asmJmpCore_resp (c : Cur) (id : Nat) : Resp (fun h => asmJmpCore h c id) := by
   intro h
   cases h with | mk a s l r u att lg tc ar bs ib =>
-  simp only [asmJmp, Holder.obs]
+  simp only [asmJmpCore, Holder.obs]
   cases hl : l[id]? with
   | none => simp
   | some le =>
@@ -147,6 +147,17 @@ theorem asmJmp_resp (c : Cur) (id : Nat) : Resp (fun h => asmJmp h c id) := by
           · simp [Holder.write]
           · split <;> simp [Holder.write]
         · simp
+
+theorem jmpScratch_resp (h : Holder) (c : Cur) : (jmpScratch h c).obs = (jmpScratch h.obs c).obs := by
+  cases h with | mk a s l r u att lg tc ar bs ib =>
+  simp only [jmpScratch, Holder.obs]
+  by_cases ha : (a == some Arch.a64) = true
+  · simp only [ha, if_true]
+  · simp only [ha]; simp [Holder.poke]
+
+theorem asmJmp_resp (c : Cur) (id : Nat) : Resp (fun h => asmJmp h c id) := by
+  intro h
+  exact Resp.congr (asmJmpCore_resp c id) (jmpScratch_resp h c)
 
 theorem asmElabelSz_resp (c : Cur) (id sz : Nat) : Resp (fun h => asmElabelSz h c id sz) := by
   intro h
